@@ -20,6 +20,9 @@ func init() {
 		Assumptions: []string{"proto.Merge / Marshal+Unmarshal copy; select picks a ready case"},
 		Run:         runC13,
 		Controls: []Control{
+			{Name: "trailer-joined-in-reverse", File: "pkg/wrap/stream.go", Old: "\ts.trailer = metadata.Join(s.trailer, md)\n", New: "\ts.trailer = metadata.Join(md, s.trailer)\n", Expect: "R13.11"},
+			{Name: "transport-setheader-sends", File: "pkg/wrap/wrap.go", Old: "func (ts *serverTransportStream) SetHeader(md metadata.MD) error {\n\treturn ts.ss.SetHeader(md)\n", New: "func (ts *serverTransportStream) SetHeader(md metadata.MD) error {\n\treturn ts.ss.SendHeader(md)\n", Expect: "R13.14"},
+			{Name: "cancel-reported-as-close-outcome", File: "pkg/wrap/stream.go", Old: "\t\treturn c.Context().Err()\n", New: "\t\treturn c.closeErrLocked()\n", Expect: "R13.15"},
 			{Name: "revert-F41-closesend-every-time", File: "pkg/wrap/stream.go", Old: "\tc.closeSend.Do(func() {\n\t\tclose(c.clientSend)\n\t})\n", New: "\tclose(c.clientSend)\n", Expect: "R13.13"},
 			{Name: "trailer-replaced-not-joined", File: "pkg/wrap/stream.go", Old: "\ts.trailer = metadata.Join(s.trailer, md)", New: "\tfor k, v := range md {\n\t\tif s.trailer == nil {\n\t\t\ts.trailer = metadata.MD{}\n\t\t}\n\t\ts.trailer.Set(k, v...)\n\t}", Expect: "R13.11"},
 			{Name: "discard-unknown-fields", File: "pkg/wrap/stream.go", Old: "proto.UnmarshalOptions{Merge: true}", New: "proto.UnmarshalOptions{Merge: true, DiscardUnknown: true}", Expect: "R13.12"},
@@ -41,6 +44,10 @@ func init() {
 }
 
 func runC13(c *an.Ctx) {
+	r1314(c)
+	c.Min("R13.14", 3)
+	r1315(c)
+	c.Min("R13.15", 1)
 	r131(c)
 	r132(c)
 	r133(c)
@@ -845,15 +852,27 @@ func r1311(c *an.Ctx) {
 					return
 				}
 				n++
-				joined, replaces := false, false
+				joined, replaces, swapped := false, false, false
 				for _, v := range an.Sources(st.Val) { // through a helper the rules have not seen
 					call, isCall := v.(*ssa.Call)
 					if !isCall {
 						continue
 					}
 					if an.CalleeName(call) == "google.golang.org/grpc/metadata.Join" {
-						// variadic: the slice holds (current, md)
+						// variadic: the slice holds (current, md), in this order: Join appends the values of its arguments key by
+						// key, so the values of an earlier call come before those of a later one, as on a real connection
 						joined = true
+						if el := variadicElems(call.Call.Args[0]); len(el) == 2 {
+							curFirst := false
+							for _, s0 := range an.Sources(el[0]) {
+								if u, isU := s0.(*ssa.UnOp); isU && isStreamField(u.X, t[1]) {
+									curFirst = true
+								}
+							}
+							if !curFirst {
+								swapped = true
+							}
+						}
 					}
 				}
 				// a hand-written merge: MD.Set replaces what is there, append keeps it
@@ -869,6 +888,8 @@ func r1311(c *an.Ctx) {
 				switch {
 				case replaces:
 					c.Bad(rule, cons, st.Pos(), "the "+t[1]+" metadata is merged with MD.Set, which replaces the values already kept for a key: when a handler adds to one key in more than one call only the last call's values reach the client (a real connection delivers all of them, in order)")
+				case joined && swapped:
+					c.Bad(rule, cons, st.Pos(), "the "+t[1]+" metadata is kept as metadata.Join(md, current): the values of a later call are put BEFORE those of the earlier ones, so a handler that adds to one key twice delivers [second first] where a real connection delivers [first second]")
 				case joined:
 					c.Ok(rule, cons, st.Pos(), "metadata.Join(current, md)")
 				default:
@@ -1119,4 +1140,109 @@ func derivesFromField(v ssa.Value, field string) bool {
 		}
 	}
 	return false
+}
+
+// r1314: the adapter that lets grpc.SetHeader / grpc.SendHeader / grpc.SetTrailer work inside a wrapped handler hands
+// each call to the method of the same name of the server stream. Handing SetHeader to SendHeader flushes the header
+// on the first grpc.SetHeader of a unary handler, so a second one fails with "headers already sent" where a real
+// connection merges both.
+func r1314(c *an.Ctx) {
+	const rule = "R13.14"
+	for _, m := range []string{"SetHeader", "SendHeader", "SetTrailer"} {
+		fn := mustFunc(c, rule, wrapPkg, "serverTransportStream", m)
+		if fn == nil {
+			continue
+		}
+		var called []string
+		for _, f := range append([]*ssa.Function{fn}, an.TransparentCalleesOf(fn, 1)...) {
+			an.Instrs(f, func(in ssa.Instruction) {
+				call, ok := in.(ssa.CallInstruction)
+				if !ok || !call.Common().IsInvoke() {
+					return
+				}
+				if an.NamedTypeName(call.Common().Value.Type()) == "google.golang.org/grpc.ServerStream" {
+					called = append(called, call.Common().Method.Name())
+				}
+			})
+		}
+		ok := len(called) > 0
+		for _, n := range called {
+			if n != m {
+				ok = false
+			}
+		}
+		c.Check(ok, rule, "(*pkg/wrap.serverTransportStream)."+m+"|delegates to the stream's "+m, fn.Pos(), "calls ss."+m,
+			fmt.Sprintf("serverTransportStream.%s calls %v on the server stream instead of %s: grpc.%s inside a wrapped handler behaves like a different operation (SetHeader handed to SendHeader sends the header at once, a second SetHeader then fails; a real connection merges them)", m, called, m, m))
+	}
+}
+
+// r1315: how a receive that is abandoned because the call's context ended reports it. clientStream.RecvMsg returns the
+// stream's own outcome (closeErr, io.EOF when the handler returned nil) only where it has seen serverSend closed;
+// otherwise - the handler is still running, the client cancelled - it returns the context's error. Returning the close
+// outcome there turns a cancellation into a clean end of stream (io.EOF).
+func r1315(c *an.Ctx) {
+	const rule = "R13.15"
+	fn := mustFunc(c, rule, wrapPkg, "clientStream", "RecvMsg")
+	if fn == nil {
+		return
+	}
+	name := "(*pkg/wrap.clientStream).RecvMsg"
+	n, ok := 0, true
+	var where ssa.Instruction
+	sawCtxErr := false
+	// (the branch may have been moved into a helper of the stream: each function is read where its returns are written)
+	var rets []*ssa.Return
+	for _, f := range append([]*ssa.Function{fn}, an.TransparentCalleesOf(fn, 2)...) {
+		rets = append(rets, an.Returns(f)...)
+	}
+	for _, r := range rets {
+		if len(r.Results) == 0 {
+			continue
+		}
+		for _, v := range localValues(r.Results[len(r.Results)-1], 0) {
+			call, isCall := v.(*ssa.Call)
+			if !isCall {
+				continue
+			}
+			if call.Call.IsInvoke() && call.Call.Method.Name() == "Err" && an.NamedTypeName(call.Call.Value.Type()) == "context.Context" {
+				sawCtxErr = true
+				continue
+			}
+			if !strings.HasSuffix(an.CalleeName(call), "ClientServerStream).closeErrLocked") {
+				continue
+			}
+			n++
+			// behind "the receive reported the channel closed"
+			closed := false
+			for _, e := range an.GuardingEdges(r) {
+				cond, pol := e.If.Cond, e.Branch
+				if u, isU := cond.(*ssa.UnOp); isU && u.Op == token.NOT {
+					cond, pol = u.X, !pol
+				}
+				ex, isEx := cond.(*ssa.Extract)
+				if !isEx || pol {
+					continue
+				}
+				switch t := ex.Tuple.(type) {
+				case *ssa.Select:
+					if ex.Index >= 1 {
+						closed = true
+					}
+				case *ssa.UnOp:
+					if t.Op == token.ARROW && t.CommaOk && ex.Index == 1 {
+						closed = true
+					}
+				}
+			}
+			if !closed {
+				ok, where = false, r
+			}
+		}
+	}
+	pos := fn.Pos()
+	if where != nil {
+		pos = where.Pos()
+	}
+	c.Check(ok && n > 0 && sawCtxErr, rule, name+"|the close outcome is reported only once the stream was seen closed", pos, fmt.Sprintf("%d return(s) of the close outcome, each behind a receive that reported the channel closed; the context's error otherwise", n),
+		"RecvMsg returns the stream's close outcome on a path where it has not seen serverSend closed (or never returns the context's error): a client that cancels while the handler is still running is told io.EOF - a clean end of stream - where a real connection reports the cancellation")
 }
